@@ -1,7 +1,7 @@
 """C03 — mux event protocol is well-formed at every operator boundary."""
 import muxgen
 import muxprop
-from muxprop import real, model_cmds, model_result, compare, shrink_candidates  # noqa: F401
+from muxprop import real, shrink_candidates  # noqa: F401
 from muxprop import wf_monitor, wf_closed
 
 PROPERTY = 'C03'
@@ -35,6 +35,14 @@ def _cases(tier, rng):
                         yield {'kind': 'mux', 'term': [['time_split', cfg, [['count', True]]]], 'items': items}
                     yield {'kind': 'mux', 'term': [['group_by', ['mod', 2], [['time_split', cfg, [['last']]]]]], 'items': [3, 4, 5, 7, 8, 11, 12]}
                     yield {'kind': 'mux', 'term': [['roll', 3, 3, [['time_split', cfg, [['to_list']]]]]], 'items': [3, 4, 5, 7, 8, 11, 12]}
+    # user callbacks of the splitters that raise on some items (outside the model: judged by the protocol monitor alone —
+    # either the exception escapes, or whatever is emitted instead respects the protocol at every boundary)
+    for i in range({'quick': 60, 'thorough': 400, 'search': 30}[tier]):
+        f = ['raise_if_mod', rng.choice([2, 3, 4]), rng.choice([0, 1])]
+        inner = rng.choice([[['count', True]], [['to_list']], [['ignore'], ['sum', None, True]], [['last']]])
+        sp = rng.choice([['group_by', f, inner], ['split', f, inner]])
+        term = rng.choice([[sp], [['group_by', ['mod', 2], [sp]]], [['roll', 3, 3, [sp]]], [sp, ['count', True]]])
+        yield {'kind': 'mux', 'term': term, 'items': muxgen.gen_items(rng), 'no_model': True}
     n = {'quick': 1500, 'thorough': 8000, 'search': 600}[tier]
     for i in range(n):
         nest = 2 if tier != 'thorough' else rng.choice([2, 2, 3])
@@ -71,6 +79,18 @@ def _oracle(case, r):
         if not fatal and not wf_closed(tr):
             return 'boundary %s: the stream completed while a created key was still live' % lab
     return None
+
+
+def model_cmds(case):
+    return [] if case.get('no_model') else muxprop.model_cmds(case)
+
+
+def model_result(case, ans):
+    return {} if case.get('no_model') else muxprop.model_result(case, ans)
+
+
+def compare(case, r, m):
+    return None if case.get('no_model') else muxprop.compare(case, r, m)
 
 
 def nontrivial(case, r):
